@@ -1142,6 +1142,13 @@ class TruthfulQueries:
         self.seen_false = set()
         self.ci = 0
         self.queued = []
+        f = world.unit_factor(self.cfg.get("timestep", "seconds"))
+        self.dur = {}
+        for o in self.cfg["obs"]:
+            d = o["dur"] / f
+            self.dur[o["name"]] = min(d, self.dur.get(o["name"], d))
+        self.bi = 0
+        self.begun = []              # (name, begin time)
 
     def _queued_truth(self, p):
         """Observations handed to the scheduler's allocation loop and not yet
@@ -1205,6 +1212,21 @@ class TruthfulQueries:
             self._v(run, "C19.scheduler-idle",
                     "idle-while-observation-in-allocation-loop",
                     {"handed-over-and-not-finished": [n for n, _ in q]})
+        calls = p.calls
+        while self.bi < len(calls):
+            c = calls[self.bi]
+            self.bi += 1
+            if c["kind"] == "begin_obs":
+                self.begun.append((c["obs"], c["t"]))
+        if ti:
+            # independent of the status field: an observation that began at
+            # t0 observes until t0 + duration
+            observing = [(n, t0) for n, t0 in self.begun
+                         if run.env.now < t0 + self.dur.get(n, 0)]
+            if observing:
+                self._v(run, "C19.telescope-idle",
+                        "idle-while-observation-within-its-duration",
+                        {"observing": observing, "now": run.env.now})
         if ti:
             unfinished = [o.name for o in sim.instrument.observations
                           if o.status.value != "FINISHED"]
